@@ -2,6 +2,7 @@
 import json
 
 import common as C
+import srctie
 
 US = 10**6
 MIN = 60 * US
@@ -170,6 +171,11 @@ def _float_range(ab):
 def run(ctx):
     rep = C.Report(ctx, META)
     rep.add_obligations(C.proof_obligations("C14"))
+    # source tie: get_task_delay / to_tz_aware are re-translated from the repository's source text and the
+    # committed proofs (generated = model; C14 over the generated definition) are re-checked against them
+    src_obs, src_info = srctie.obligations(ctx, "sched_run", "C14")
+    rep.add_obligations(src_obs)
+    rep.extra["source_tie"] = src_info
     for name, c in C.load_corpus("C14"):
         explore(ctx, rep, [c], "corpus")
     r = ctx.sub_rng("gen")
